@@ -13,6 +13,7 @@ import logging
 import marshal
 import math
 import os
+import re
 import sys
 import tokenize as tk
 
@@ -315,10 +316,11 @@ class OperatorNode(ASTNode):
                           )
         elif op == ':':
             # range union
-            ss = '_R_' + (f'(str({args[0].emit} ** {args[1].emit}))'
-                          .replace('_R_', '_REF_')
-                          .replace('_C_', '_REF_')
-                          )
+            ss = self._written_union(args[0].emit, args[1].emit) or (
+                '_R_' + (f'(str({args[0].emit} ** {args[1].emit}))'
+                         .replace('_R_', '_REF_')
+                         .replace('_C_', '_REF_')
+                         ))
         else:
             if op != ',':
                 op = ' ' + op
@@ -329,6 +331,36 @@ class OperatorNode(ASTNode):
             ss = "(" + ss + ")"
 
         return ss
+
+
+    WRITTEN_REF_RE = re.compile(
+        r'_[RC]_\("([^"]+)"\)|'
+        r'_R_\(str\(_REF_\("([^"]+)"\) & _REF_\("([^"]+)"\)\)\)')
+
+    @classmethod
+    def _written_union(cls, left, right):
+        """The range between two written references is known here: emit it as
+        a reference, so that all of its cells are declared as needed"""
+        addrs = []
+        for operand in (left, right):
+            while operand.startswith('(') and operand.endswith(')'):
+                operand = operand[1:-1]
+            match = cls.WRITTEN_REF_RE.fullmatch(operand)
+            if match is None:
+                return None
+            if match.group(1):
+                addrs.append(AddressRange(match.group(1)))
+            else:
+                # the intersection of two written references
+                addrs.append(AddressRange(match.group(2)) &
+                             AddressRange(match.group(3)))
+                if isinstance(addrs[-1], str):
+                    return None
+        union = addrs[0] ** addrs[1]
+        if isinstance(union, str):
+            return None
+        template = '_R_("{}")' if union.is_range else '_C_("{}")'
+        return template.format(union)
 
 
 class OperandNode(ASTNode):
